@@ -388,10 +388,11 @@ fn run_as<I: Identifier>(rep: &Reporter, prm: &Params) {
 
 fn main() {
     let rep = Reporter::from_args("C18");
-    rep.rule("runs of real_pso and of harness-assembled pso variants (PSO as a later stage after a better foreign solution became the run's best individual, without weight update, with increasing/decreasing/constant schedules, c1=c2=0) over swarm sizes 1..20, dimensions 1..5, domains, (start,end) weights in {(.9,.4),(.5,.5),(0,0),(.4,.9)}, c in {0,1.7}, v_max in {1e-3*width,.1,1,10}, n<=40, seeds; observed at the step-observer hook: after every velocity update |v|<=v_max, x_after == x_before + v_new bit-exact, v_new within clamp(w_stored*v_old + [0,c1](pbest-x) + [0,c2](gbest-x)) (exact scaling when c1=c2=0); after every weight update w == (end-start)*progress + start; after every memory update pbest_i == first best evaluated position of particle i (harness keeps the per-particle history), never worse, gbest == best pbest; after every component the three collections have one entry per particle. distinct_nontrivial = distinct parameter cells");
+    rep.rule("runs of real_pso and of harness-assembled pso variants (PSO as a later stage after a better foreign solution became the run's best individual, without weight update, with increasing/decreasing/constant schedules, c1=c2=0) over swarm sizes 1..20, dimensions 1..5, domains, (start,end) weights in {(.9,.4),(.5,.5),(0,0),(.4,.9),(1.2,1.2),(1.5,.4)}, c in {0,1.7}, v_max in {1e-3*width,.1,1,10}, n<=40, seeds; observed at the step-observer hook: after every velocity update |v|<=v_max, x_after == x_before + v_new bit-exact, v_new within clamp(w_stored*v_old + [0,c1](pbest-x) + [0,c2](gbest-x)) (exact scaling when c1=c2=0); after every weight update w == (end-start)*progress + start; after every memory update pbest_i == first best evaluated position of particle i (harness keeps the per-particle history), never worse, gbest == best pbest; after every component the three collections have one entry per particle. distinct_nontrivial = distinct parameter cells");
     rep.assume("the population is evaluated once per pass by the evaluation step; component names identify the PSO steps");
     let mut rng = SplitMix64::new(rep.seed).fork(0xC18);
-    let weights = [(0.9, 0.4), (0.5, 0.5), (0.0, 0.0), (0.4, 0.9)];
+    // (weights above 1 are legal: the clamp is what keeps the velocities bounded then)
+    let weights = [(0.9, 0.4), (0.5, 0.5), (0.0, 0.0), (0.4, 0.9), (1.2, 1.2), (1.5, 0.4)];
     let mut cells: Vec<Params> = Vec::new();
     let n_cells = rep.tier.pick(6_000, 8_000_000);
     for k in 0..n_cells {
